@@ -100,19 +100,20 @@ Definition fields (f : dfmt) (s : str) : parts :=
 (* the directive regexes of _strptime on two-digit fields: %m 1[0-2]|0[1-9], %d 3[01]|[12]\d|0[1-9],
    %H 2[0-3]|[0-1]\d, %M [0-5]\d, %S 6[0-1]|[0-5]\d (the one-digit alternatives cannot complete a match of a
    layout string) *)
-Definition strptime_regex_ok (p : parts) : bool :=
-  (1 <=? pm p) && (pm p <=? 12) && (1 <=? pd p) && (pd p <=? 31)
-  && (pH p <=? 23) && (pM p <=? 59) && (pS p <=? 61).
+Definition regex_date (p : parts) : bool := (1 <=? pm p) && (pm p <=? 12) && (1 <=? pd p) && (pd p <=? 31).
+Definition regex_time (p : parts) : bool := (pH p <=? 23) && (pM p <=? 59) && (pS p <=? 61).
+Definition strptime_regex_ok (p : parts) : bool := regex_date p && regex_time p.
 
 (* datetime.datetime(Y, m, d, H, M, S, us): _check_date_fields, _check_time_fields *)
 Definition py_is_leap (y : N) : bool := (y mod 4 =? 0) && (negb (y mod 100 =? 0) || (y mod 400 =? 0)).
 Definition DAYS_IN_MONTH : list N := [0; 31; 28; 31; 30; 31; 30; 31; 31; 30; 31; 30; 31].
 Definition py_days_in_month (y m : N) : N :=
   if (m =? 2) && py_is_leap y then 29 else nth (N.to_nat m) DAYS_IN_MONTH 0.
-Definition datetime_ok (p : parts) : bool :=
+Definition check_date_fields (p : parts) : bool :=
   (1 <=? pY p) && (pY p <=? 9999) && (1 <=? pm p) && (pm p <=? 12)
-  && (1 <=? pd p) && (pd p <=? py_days_in_month (pY p) (pm p))
-  && (pH p <=? 23) && (pM p <=? 59) && (pS p <=? 59).
+  && (1 <=? pd p) && (pd p <=? py_days_in_month (pY p) (pm p)).
+Definition check_time_fields (p : parts) : bool := (pH p <=? 23) && (pM p <=? 59) && (pS p <=? 59).
+Definition datetime_ok (p : parts) : bool := check_date_fields p && check_time_fields p.
 
 (* ------------------------------------------------------------------ _validate_value_datetime(value, format) *)
 Definition validate_datetime (f : dfmt) (s : str) : bool :=
